@@ -103,7 +103,7 @@ class Region(object):
         vectors = self.sky2vec(sky)
         for vec, r in zip(vectors, rad):
             pix = hp.query_disc(2**depth, vec, r, inclusive=True, nest=True)
-            self.add_pixels(pix, depth)
+            self._add_pixels(pix, depth)
         self._renorm()
         return
 
@@ -131,7 +131,7 @@ class Region(object):
         sky = self.radec2sky(ras, decs)
         pix = hp.query_polygon(2**depth, self.sky2vec(sky),
                                inclusive=True, nest=True)
-        self.add_pixels(pix, depth)
+        self._add_pixels(pix, depth)
         self._renorm()
         return
 
@@ -146,6 +146,15 @@ class Region(object):
 
         depth : int
             The depth at which the pixels are added.
+        """
+        self._add_pixels(pix, depth)
+        # keep the region normalised (no pixel stored along with an ancestor)
+        # and drop the cached deepest-level representation
+        self._renorm()
+
+    def _add_pixels(self, pix, depth):
+        """
+        Add pixels without renormalising. Callers must call _renorm().
         """
         if depth not in self.pixeldict:
             self.pixeldict[depth] = set()
@@ -276,7 +285,7 @@ class Region(object):
         """
         # merge the pixels that are common to both
         for d in range(1, min(self.maxdepth, other.maxdepth)+1):
-            self.add_pixels(other.pixeldict[d], d)
+            self._add_pixels(other.pixeldict[d], d)
 
         # if the other region is at higher resolution, then include a degraded
         # version of the remaining pixels.
